@@ -187,6 +187,48 @@ pub fn run(tier: Tier, seed: u64, known: &Known) -> PropRun {
     run
 }
 
-pub fn replay(_part: &str, bytes: &[u8], _case: &Value, stats: &mut Stats) -> Verdict {
+/// Structural replay: the saved go command (and the command it was compared with) through the
+/// real parser; fit inside the mover's clock, equality of the two budgets.
+fn replay_case(case: &Value, stats: &mut Stats) -> Option<Verdict> {
+    let cmd = case.get("command")?.as_str()?;
+    let white = case.get("side_to_move")?.as_str()? == "white";
+    let own_key = if white { "wtime" } else { "btime" };
+    let toks: Vec<&str> = cmd.split_whitespace().collect();
+    let own_t: u64 = toks.iter().position(|t| *t == own_key).and_then(|i| toks.get(i + 1)).and_then(|x| x.parse().ok())?;
+    let mut run = || -> Verdict {
+        let b = budget(white, cmd)?;
+        stats.eval();
+        let Some((_d, Some(limit))) = b else {
+            return Err(Failure::new("no-time-limit-with-clock", json!({"side_to_move": case["side_to_move"], "command": cmd})));
+        };
+        let ms = limit.as_millis() as u64;
+        if ms > own_t || (own_t > 0 && ms >= own_t) {
+            return Err(Failure::new("budget-exceeds-clock", json!({"side_to_move": case["side_to_move"], "command": cmd, "own_time": own_t, "budget_ms": ms})));
+        }
+        if let Some(other) = case.get("other_command").and_then(|x| x.as_str()) {
+            let b2 = budget(white, other)?;
+            if b2.map(|x| x.1) != Some(Some(limit)) {
+                let same_tokens = {
+                    let mut a: Vec<&str> = cmd.split_whitespace().collect();
+                    let mut b: Vec<&str> = other.split_whitespace().collect();
+                    a.sort();
+                    b.sort();
+                    a == b
+                };
+                return Err(Failure::new(
+                    if same_tokens { "depends-on-token-order" } else { "depends-on-opponent-clock" },
+                    json!({"side_to_move": case["side_to_move"], "command": cmd, "budget_ms": ms, "other_command": other, "other_budget": format!("{:?}", b2)}),
+                ));
+            }
+        }
+        Ok(())
+    };
+    Some(run())
+}
+
+pub fn replay(_part: &str, bytes: &[u8], case: &Value, stats: &mut Stats) -> Verdict {
+    if let Some(v) = replay_case(case, stats) {
+        return v;
+    }
     check(bytes, stats)
 }
